@@ -18,7 +18,13 @@ use std::collections::HashMap;
 use std::sync::Arc;
 
 pub fn setup_globals() {
-	global::set_local_chain_type(ChainTypes::AutomatedTesting);
+	// VERIF_CHAIN_TYPE=user selects the UserTesting parameters (cut-through horizon 70, larger than
+	// the state sync threshold) for the runs that ask for them
+	if std::env::var("VERIF_CHAIN_TYPE").map(|v| v == "user").unwrap_or(false) {
+		global::set_local_chain_type(ChainTypes::UserTesting);
+	} else {
+		global::set_local_chain_type(ChainTypes::AutomatedTesting);
+	}
 	global::set_local_nrd_enabled(true);
 	global::set_local_accept_fee_base(1);
 }
